@@ -208,7 +208,7 @@ func (g *c17Gen) gen(ty string, d int) *c17X {
 		return leaf()
 	}
 	// bool
-	switch g.pick(12, "bk") {
+	switch g.pick(13, "bk") {
 	case 0:
 		return bin("==", c17I, c17S)
 	case 1:
@@ -231,6 +231,9 @@ func (g *c17Gen) gen(ty string, d int) *c17X {
 		return &c17X{K: "all", Ty: ty, A: []*c17X{{K: "leaf", Text: "Vs", Ty: "[]V"}, g.body(c17V, c17B, d-1)}}
 	case 10:
 		return &c17X{K: "un", Op: "not", Ty: ty, A: []*c17X{g.gen(c17B, d-1)}}
+	case 11:
+		// `x ?: y`: the parser uses ONE node for the condition and the first branch; an overloaded operator as x
+		return &c17X{K: "elvis", Ty: ty, A: []*c17X{g.gen(c17B, d-1), g.gen(c17B, d-1)}}
 	default:
 		return leaf()
 	}
@@ -285,6 +288,8 @@ func (x *c17X) print(table map[string][]string, callForm bool, nOver, nBuiltin *
 		return "(" + x.Op + " " + p(x.A[0]) + ")"
 	case "cond":
 		return "(" + p(x.A[0]) + " ? " + p(x.A[1]) + " : " + p(x.A[2]) + ")"
+	case "elvis":
+		return "(" + p(x.A[0]) + " ?: " + p(x.A[1]) + ")"
 	case "call":
 		return x.Text + "(" + p(x.A[0]) + ")"
 	case "idx":
